@@ -15,9 +15,9 @@ tvars == <<vars, tid, l, viol, drift>>
 Ev(i) == Traces[i].ev
 Add(S, c, name) == IF c THEN S ELSE S \cup {name}
 TInit == Init /\ tid \in 1..Len(Traces) /\ l = 1 /\ viol = {} /\ drift = {}
-IsEdit(e) == e.op \in {"edit_e", "edit_v", "edit_iter", "edit_svc", "edit_ext", "edit_iter2"}
+IsEdit(e) == e.op \in {"edit_e", "edit_v", "edit_iter", "edit_svc", "edit_ext", "edit_iter2", "edit_order"}
 IsLoad(e) == e.op \in {"undill_auto", "undill_noauto"}
-Action(e) == CASE IsEdit(e) -> Edit
+Action(e) == CASE IsEdit(e) -> EditTo(e.content)
                [] e.op = "prepare" -> Prepare
                [] e.op = "undill_auto" -> Undill(TRUE)
                [] e.op = "undill_noauto" -> Undill(FALSE)
@@ -28,12 +28,14 @@ Judge(e) ==
         v1 == Add(viol, ~(IsLoad(e) /\ ran) \/ e.used_ver = modelVer' \/ e.reported_stale, "StaleCodeNeverSilentlyUsed:" \o e.op)
         v2 == Add(v1, ~(e.op = "undill_auto" /\ ran) \/ e.used_ver = modelVer', "AutomaticRegenerationUsesCurrentModel:" \o e.op)
         v3 == Add(v2, ~(e.op = "prepare") \/ (ran /\ e.used_ver = modelVer'), "GeneratedCodeIsCurrentModel:" \o e.op)
-        v4 == Add(v3, ~ran \/ e.values_ok, "LoadedFunctionsComputeDeclaredEquations:" \o e.op)
+        (* code that was reported stale may compute anything (its values may even reach the wrong variables) *)
+        v4 == Add(v3, ~ran \/ e.reported_stale \/ e.values_ok, "LoadedFunctionsComputeDeclaredEquations:" \o e.op)
     IN v4
 Conform(e) ==
     IF ~(IsLoad(e) \/ e.op = "prepare") THEN drift
     ELSE LET d1 == Add(drift, e.raised = raised', "raised_differs_from_model:" \o e.op)
-             d2 == Add(d1, e.raised \/ raised' \/ e.used_ver = loaded', "loaded_version_differs_from_model:" \o e.op)
+             (* stale code that was reported and not regenerated may compute no version's numbers (used_ver = 0) *)
+             d2 == Add(d1, e.raised \/ raised' \/ e.used_ver = loaded' \/ (reported' /\ e.used_ver = 0), "loaded_version_differs_from_model:" \o e.op)
              d3 == Add(d2, e.raised \/ raised' \/ e.reported_stale = reported', "stale_report_differs_from_model:" \o e.op)
          IN d3
 OnDet(e) == Add(Add(viol, e.identical, "RegenerationIsDeterministic"), e.md5_matches, "RecordedChecksumIsModelChecksum")
